@@ -12,7 +12,7 @@ pkgs=$(git diff --name-only | xargs -n1 dirname | sort -u | sed 's|^|./|' | tr '
 go build ./... || { echo "BUILD FAILS"; git checkout -q -- .; exit 1; }
 echo "== package tests with patch: $pkgs ./$pkgdir"
 runsel=""
-case "$pkgs ./$pkgdir" in *x/dsmr*) runsel="-run Test[A-FH-Z]";; esac
+case "$pkgs ./$pkgdir" in *x/dsmr*) runsel="-skip TestGetChunkSignature_PersistAttestedBlocks";; esac
 go test -vet=off -count=1 -timeout 600s $runsel $pkgs ./$pkgdir 2>&1 | tail -5; t1=${PIPESTATUS[0]}
 cp $src/demo_test.go $demo
 echo "== demo with patch (must FAIL)"
